@@ -23,13 +23,16 @@ def elems(rng, ies, data, maxlen=200):
     return ",".join("%s=%s" % (ie.tok(), G.well_typed_value(rng, ie, big_ok=False, maxlen=maxlen) if data else zero_value(ie)) for ie in ies)
 
 
+PATHS = ["0", "1", "2", "0r", "1r", "2r"]
+
+
 def send_template(rng, tid, ies):
-    return "exp send %s t %d %d@%s" % (rng.choice("012"), tid, tid, elems(rng, ies, False))
+    return "exp send %s t %d %d@%s" % (rng.choice(PATHS), tid, tid, elems(rng, ies, False))
 
 
 def send_data(rng, tid, ies, nrec, setid=None, maxlen=200):
     recs = ";".join("%d@%s" % (tid, elems(rng, ies, True, maxlen)) for _ in range(nrec))
-    return "exp send %s d %d %s" % (rng.choice("012"), tid if setid is None else setid, recs)
+    return "exp send %s d %d %s" % (rng.choice(PATHS), tid if setid is None else setid, recs)
 
 
 def valid_session(rng, sup, nsends, near_wrap=False, user_ok=True):
